@@ -38,6 +38,16 @@ pub fn run(suite: &str, ctx: &mut Ctx) {
     }
 }
 
+/// amplified variants of a request on which model and implementation disagree, through the validators (implementation only)
+pub fn search(line: &str, ctx: &mut Ctx) {
+    let head = line.split_whitespace().next().unwrap_or("");
+    match head {
+        "diff" | "capture" | "script" | "usnake" | "utable" | "ucpl" | "ucsl" | "ucleanup" | "ushift" | "identify" => algs::search(line, ctx),
+        "text" | "helper" => text::search(line, ctx),
+        _ => {}
+    }
+}
+
 /// re-run one request line against the real code and print the answer and the oracle verdicts
 pub fn replay(line: &str) {
     let head = line.split_whitespace().next().unwrap_or("");
